@@ -349,10 +349,34 @@ def run_property(prop, cfg, tier, known, only=None):
         res["samples"].append(sample)
         say(f"  [{unit:>18}] obligations={len(sample['queries'])}")
 
+        # ---- two facts about the constructors around the steps above
+        unit = "constructor_facts"
+        sample = {"unit": unit, "what": "Command::then is nothing but Command::new of its async block; StreamBuilder::then_request chains with StreamExt::then (one item at a time, in order)", "queries": []}
+        def fact(name, holds, detail):
+            res["obligations"] += 1
+            res["queries"] += 1
+            res["decided"] += 1
+            sample["queries"].append({"obligation": name, "holds": bool(holds), "detail": detail[:200]})
+            if holds:
+                res["discharged"] += 1
+                witnesses.add(f"{unit}: {name[:60]}")
+            else:
+                failed.append(f"{unit}: {name} [{detail[:100]}]")
+        mt = re.search(IMPL + r"then\(_1: command::Command<Effect, Event>, _2: command::Command<Effect, Event>\)[^\n]*\n(.*?)\n}\n", mir, re.M | re.S)
+        calls = re.findall(r"^\s+_\d+ = ([^\n]*?) -> \[return", mt.group(1), re.M) if mt else []
+        fact("then does nothing but wrap its two operands in Command::new of the sequencing block (no work at construction time)",
+             len(calls) == 1 and "Command::<Effect, Event>::new::<{closure@crux_core/src/command/mod.rs" in calls[0], "; ".join(c[:80] for c in calls) or "then not found")
+        mb = re.search(r"^fn builder::<impl at crux_core/src/command/builder\.rs:2\d\d:[\d: ]+>::then_request::\{closure#0\}\([^\n]*\n(.*?)\n}\n", mir, re.M | re.S)
+        chain = [c for c in re.findall(r"= ([^\n]*?)\((?:move|copy)", mb.group(1)) if re.search(r"StreamExt>::|flat|then", c)] if mb else []
+        fact("a stream's then_request feeds each item to the next request with StreamExt::then: one at a time, in item order",
+             len(chain) == 1 and re.search(r"as StreamExt>::then::<", chain[0]) is not None, "; ".join(c[-70:] for c in chain) or "not found")
+        res["samples"].append(sample)
+        say(f"  [{unit:>18}] facts={len(sample['queries'])}")
+
         dev, n = native_scenarios(binp)
         dev = [d for d in dev if d[0].startswith("typed-c04-")]
         res["validated_inputs"] = n
-        res["notes"].append(f"native typed-c04-* scenarios (15 expressions with hand-written expectations): {len(dev)} deviations")
+        res["notes"].append(f"native typed-c04-* scenarios (15 expressions with hand-written expectations, 17 in all): {len(dev)} deviations")
         if failed:
             if dev:
                 os.makedirs(os.path.join(REPLAYS, prop), exist_ok=True)
